@@ -626,17 +626,25 @@ def _failed_set_shrinks(ctx: Context, hm) -> None:
     T = ctx.terms
     sites = 0
     owners = set()
+    loose = set()  # the set is only loaded and some shrinker method is called: decided by data flow below (local alias of the set)
     for g in _top_functions(ctx):
         hit = False
+        loads = shrinks = False
         for n in ast.walk(g.node):
             if isinstance(n, ast.Call) and isinstance(n.func, ast.Attribute) and n.func.attr in SHRINKERS:
                 v = n.func.value
                 hit |= isinstance(v, ast.Attribute) and v.attr == hm.F
+                shrinks = True
             elif isinstance(n, (ast.Assign, ast.AugAssign, ast.AnnAssign, ast.Delete)):
                 tg = n.targets if isinstance(n, (ast.Assign, ast.Delete)) else [n.target]
                 hit |= any(isinstance(t, ast.Attribute) and t.attr == hm.F for t in tg)
+            elif isinstance(n, ast.Attribute) and n.attr == hm.F and isinstance(n.ctx, ast.Load):
+                loads = True
         if hit and g.name != "__init__":
             owners.add(g.qualname)
+        elif loads and shrinks and g.name != "__init__":
+            owners.add(g.qualname)
+            loose.add(g.qualname)
     for q in sorted(owners):
         g = ctx.func(q)
         cfg = ctx.cfg(q)
@@ -647,6 +655,8 @@ def _failed_set_shrinks(ctx: Context, hm) -> None:
                     shr.append(n)
         shr += [n for n, _v in _attr_assigns(cfg, hm.F)]
         shr = _uniq(shr)
+        if not shr and q in loose:
+            continue
         if not shr:
             ck.violated("C10.G2", f"{ctx.fkey(g)}:failed-set-writer", f"{_short(q)} modifies the failed-host set of another object or in a nested function",
                         g.loc(), None, "the failed-host set shrinks only in _get_connect_hosts and after a host change")
@@ -708,6 +718,18 @@ def _sym(ctx: Context, cfg, nid: int, e, stack=frozenset()):
             return ("mul", l, _sym(ctx, cfg, nid, e.right, stack))
         if r is not None:
             return ("mul", r, _sym(ctx, cfg, nid, e.left, stack))
+        return ("mul2", _sym(ctx, cfg, nid, e.left, stack), _sym(ctx, cfg, nid, e.right, stack))
+    if isinstance(e, ast.BinOp) and isinstance(e.op, ast.Add):
+        return ("add", _sym(ctx, cfg, nid, e.left, stack), _sym(ctx, cfg, nid, e.right, stack))
+    if isinstance(e, ast.Call) and not e.keywords and not any(isinstance(a, ast.Starred) for a in e.args):
+        # jitter: random.uniform(a, b) lies in [a, b]; random.random() in [0, 1)
+        fn = ctx.terms.of(cfg, nid, e.func)
+        if fn == ("glob", "random.uniform") and len(e.args) == 2:
+            a, b = _num(ctx, cfg, nid, e.args[0]), _num(ctx, cfg, nid, e.args[1])
+            if a is not None and b is not None:
+                return ("ival", min(a, b), max(a, b))
+        if fn == ("glob", "random.random") and not e.args:
+            return ("ival", 0.0, 1.0)
     if (
         isinstance(e, ast.Call)
         and not e.keywords
@@ -727,6 +749,8 @@ def _has_rec(s, dn) -> bool:
         return s[1] == dn
     if s[0] == "mul":
         return _has_rec(s[2], dn)
+    if s[0] in ("mul2", "add"):
+        return _has_rec(s[1], dn) or _has_rec(s[2], dn)
     if s[0] in ("min", "phi"):
         return any(_has_rec(x, dn) for x in s[1])
     if s[0] == "def":
@@ -755,6 +779,16 @@ def _ival(s, env):
             return (0, 0)
         a, b = s[1] * v[0], s[1] * v[1]
         return (min(a, b), max(a, b))
+    if k == "ival":
+        return (s[1], s[2])
+    if k in ("mul2", "add"):
+        a, b = _ival(s[1], env), _ival(s[2], env)
+        if a is None or b is None:
+            return None
+        if k == "add":
+            return (a[0] + b[0], a[1] + b[1])
+        ps = [x * y if not (x == 0 or y == 0) else 0 for x in a for y in b]
+        return (min(ps), max(ps))
     if k == "min":
         vs = [_ival(x, env) for x in s[1]]
         if any(v is None for v in vs):
@@ -826,9 +860,18 @@ def _b1(ctx: Context) -> None:
             ck.unknown("C10.B1", "asyncio.sleep is not called with one positional delay", loc)
             continue
         s = _sym(ctx, cfg, sn.id, call.args[0])
+        s_full = s
+        # a jitter factor / summand around the delay variable: the bound below is on the whole argument, the growth
+        # argument on the variable
+        def peel(x):
+            while x[0] in ("mul2", "add") and any(y[0] in ("ival", "const") for y in x[1:3]) and any(y[0] not in ("ival", "const") for y in x[1:3]):
+                x = x[1] if x[2][0] in ("ival", "const") else x[2]
+            return x
+
+        s = peel(s)
         # 1. interval of the argument
         try:
-            iv = _ival(s, {})
+            iv = _ival(s_full, {})
         except _Undecided as e:
             ck.unknown("C10.B1", f"cannot bound the sleep argument: {e}", loc)
             continue
@@ -848,9 +891,10 @@ def _b1(ctx: Context) -> None:
         d = None
         while chain[0] == "phi" and len(chain[1]) == 1 and chain[1][0][0] == "def":
             d = chain[1][0]
-            if _has_rec(d[3], d[1]) or not (d[3][0] == "phi" and len(d[3][1]) == 1):
+            inner = peel(d[3])
+            if _has_rec(d[3], d[1]) or not (inner[0] == "phi" and len(inner[1]) == 1):
                 break
-            chain = d[3]
+            chain = inner
         if chain[0] == "phi" and len(chain[1]) != 1:
             lines = sorted({cfg.nodes[x[1]].lineno for x in chain[1] if x[0] in ("def", "rec")})
             ck.violated("C10.B1", f"{fk}:delay-update-skipped",
